@@ -16,7 +16,9 @@ import (
 
 var c14Kinds = []string{"json.Number", "int", "int8", "int16", "int32", "int64", "uint", "uint8", "uint16", "uint32", "uint64", "float32", "float64", "decimal128"}
 
-var c14Values = []string{"-7", "-2", "-1", "0", "1", "2", "3", "8", "0.5", "1.5", "-3.5", "255", "2147483648"}
+var c14Values = []string{"-7", "-2", "-1", "0", "1", "2", "3", "8", "0.5", "1.5", "-3.5", "255", "2147483648",
+	// beyond the 53-bit mantissa and beyond int64: only for forms that compare or order (no arithmetic)
+	"9007199254740992", "9007199254740993", "9223372036854775807", "9223372036854775808", "18446744073709551615", "-9223372036854775808"}
 
 // carry builds the Go value of the given kind holding the number, if it can.
 func carry(kind, text string) (any, bool) {
@@ -28,9 +30,23 @@ func carry(kind, text string) (any, bool) {
 	var i int64
 	if isInt {
 		if !r.Num().IsInt64() {
-			return nil, false
+			// beyond int64: only uint64, uint, the floats (when exact), json.Number and decimal128 can carry it
+			switch kind {
+			case "uint64", "uint":
+				if r.Num().IsUint64() {
+					if kind == "uint" {
+						return uint(r.Num().Uint64()), true
+					}
+					return r.Num().Uint64(), true
+				}
+				return nil, false
+			case "json.Number", "decimal128", "float32", "float64":
+			default:
+				return nil, false
+			}
+		} else {
+			i = r.Num().Int64()
 		}
-		i = r.Num().Int64()
 	}
 	f, _ := r.Float64()
 	inRange := func(lo, hi int64) bool { return isInt && i >= lo && i <= hi }
@@ -89,8 +105,10 @@ func dyadic(r *big.Rat) bool {
 
 func c14Forms() []c14Form {
 	var fs []c14Form
-	always := func(x, y *big.Rat) bool { return true }
-	small := func(x, y *big.Rat) bool { // compound forms and size-driving arguments: keep to small magnitudes
+	huge := func(r *big.Rat) bool { return new(big.Rat).Abs(r).Cmp(big.NewRat(1<<40, 1)) > 0 }
+	always := func(x, y *big.Rat) bool { return !huge(x) && !huge(y) }
+	ordering := func(x, y *big.Rat) bool { return true } // comparing and ordering are exact for every carrier
+	small := func(x, y *big.Rat) bool {                  // compound forms and size-driving arguments: keep to small magnitudes
 		lim := big.NewRat(256, 1)
 		return new(big.Rat).Abs(x).Cmp(lim) < 0 && new(big.Rat).Abs(y).Cmp(lim) < 0
 	}
@@ -106,7 +124,11 @@ func c14Forms() []c14Form {
 		fs = append(fs, c14Form{"arith " + op, "x " + op + " y", 2, always})
 	}
 	for _, op := range []string{"<", "<=", ">", ">=", "==", "!="} {
-		fs = append(fs, c14Form{"cmp " + op, "x " + op + " y", 2, always})
+		fs = append(fs, c14Form{"cmp " + op, "x " + op + " y", 2, ordering})
+	}
+	for _, e := range []string{"[x] == [y]", "{k: x} == {k: y}", "contains([x, `1`], y)", "contains(l, y)", "max([x, y])", "min([x, y])", "sort([x, y])", "sort([y, x, x])", "max(l)", "min(l)", "sort(l)", "sort(l)[-1] == max(l)",
+		"sort_by(o, &k)[*].i", "max_by(o, &k).i", "min_by(o, &k).i", "l[?@ > `1`]", "[x, y][?@ >= `9007199254740993`]", "x == y || x < y || x > y", "type(x)", "x && y", "!x", "not_null(x, y)", "l == [x, y]", "to_array(x)", "x == `9007199254740993`"} {
+		fs = append(fs, c14Form{"big " + e, e, 2, ordering})
 	}
 	for _, e := range []string{"[x] == [y]", "{k: x} == {k: y}", "[x, y] == [y, x]", "contains([x, `1`], y)", "contains(l, y)", "x && y", "x || y", "[x, y][?@ == `1`]",
 		"l[?@ > `1`]", "l[?@]", "sum([x, y])", "avg([x, x])", "avg([x, y, x, y])", "max([x, y])", "min([x, y])", "sort([x, y])", "sort([y, x, x])", "max(l)", "min(l)", "sort(l)",
